@@ -4,5 +4,4 @@ CONSTANTS
 INIT Init
 NEXT Next
 INVARIANTS PrefixClosed Refines Maximal HasAgrees DeleteRetAgrees JsonImage NoEmptyMember
-PROPERTIES AddPost DeletePost
 CHECK_DEADLOCK FALSE
